@@ -17,8 +17,9 @@
 //!   finish <aid> <ok|err|panic>      kill <aid>
 //!   resize <n>                       settings <disc> <n|->        drain
 //!   advance <ms>                     block          release <n>       nop
+//!   sethandler <hid|none>   (UpdateSettings: a NEW discard handler with identity hid, or none)
 //! observation:
-//!   build=[wid.aid,..] start=[aid:id:key,..] disc=[Reason:id,..] hook=[..] acc=[id:a|b|x,..]
+//!   build=[wid.aid,..] start=[aid:id:key,..] disc=[Reason:id@hid,..] hook=[..] acc=[id:a|b|x,..]
 //!   up=<0|1> q=<n|x> act=<n|x> cap=<n|x> live=[aid,..] wq=<[wid:len,..] after the step's last route_message | ->
 
 use hutil::{Args, Log, Rng, Stats};
@@ -118,12 +119,15 @@ impl WorkerBuilder<GW, ()> for GB {
 }
 
 // ---------------------------------------------------------------- plug-ins
+/// A discard handler with an identity: handler 0 is the one the factory starts with, every
+/// `sethandler` op installs a new one through `UpdateSettings`. Each call records who was called.
 struct Disc {
     sh: Sh,
+    hid: u64,
 }
 impl DiscardHandler<K, M> for Disc {
     fn discard(&self, reason: DiscardReason, job: &mut Job<K, M>) {
-        self.sh.lock().unwrap().discs.push(format!("{reason:?}:{}", job.msg));
+        self.sh.lock().unwrap().discs.push(format!("{reason:?}:{}@{}", job.msg, self.hid));
     }
 }
 
@@ -495,6 +499,16 @@ impl H {
                     note = " sendfail".into();
                 }
             }
+            ["sethandler", h] => {
+                let nh: Option<Arc<dyn DiscardHandler<K, M>>> = match h.parse::<u64>() {
+                    Ok(hid) => Some(Arc::new(Disc { sh: self.sh.clone(), hid })),
+                    Err(_) => None,
+                };
+                let req = UpdateSettingsRequest::builder().discard_handler(nh).build();
+                if self.factory.cast(FactoryMessage::UpdateSettings(req)).is_err() {
+                    note = " sendfail".into();
+                }
+            }
             ["drain"] => {
                 if self.factory.cast(FactoryMessage::DrainRequests).is_err() {
                     note = " sendfail".into();
@@ -572,7 +586,7 @@ where
         .queue(queue)
         .router(Spy { inner: RateLimitedRouter::builder().router(router).rate_limiter(lim).build(), sh: sh.clone() })
         .worker_builder(Box::new(GB { sh: sh.clone() }))
-        .maybe_discard_handler(if cfg.dh { Some(Arc::new(Disc { sh: sh.clone() }) as Arc<dyn DiscardHandler<K, M>>) } else { None })
+        .maybe_discard_handler(if cfg.dh { Some(Arc::new(Disc { sh: sh.clone(), hid: 0 }) as Arc<dyn DiscardHandler<K, M>>) } else { None })
         .discard_settings(parse_disc(&cfg.disc))
         .lifecycle_hooks(Box::new(Hooks { sh: sh.clone() }))
         .maybe_capacity_controller(if cfg.cc { Some(Box::new(CC { sh: sh.clone() }) as Box<dyn WorkerCapacityController>) } else { None })
@@ -598,6 +612,51 @@ where
             let nkeys = *rng.pick(&[1u64, 2, 3, 5, 8, 40]);
             let mut drained = false;
             let mut size = cfg.n;
+            let mut next_hid = 1u64;
+            // directed openings (then the random walk continues from there)
+            let profile = rng.below(10);
+            let mut opening: Vec<String> = vec![];
+            if profile == 7 {
+                // jobs parked behind a busy worker / in the queue with a short TTL, the discard handler
+                // replaced meanwhile, then time passes and the worker finishes
+                let key = rng.below(nkeys);
+                for _ in 0..rng.range(1, 3) {
+                    opening.push(gen_dispatch_with(&mut next_id, key, "-", 0));
+                }
+                if rng.chance(1, 2) {
+                    opening.push(format!("sethandler {next_hid}"));
+                    next_hid += 1;
+                }
+                for _ in 0..rng.range(1, 4) {
+                    let k = if rng.chance(3, 4) { key } else { rng.below(nkeys) };
+                    opening.push(gen_dispatch_with(&mut next_id, k, *rng.pick(&["1", "3", "5", "-"]), 0));
+                }
+                opening.push(format!("sethandler {next_hid}"));
+                next_hid += 1;
+                opening.push(format!("advance {}", rng.pick(&[2u64, 10, 120])));
+            } else if profile == 8 {
+                // a deep backlog, then the limit is lowered, then more jobs arrive
+                for _ in 0..(cfg.n as u64 + rng.range(3, 8)) {
+                    let k = rng.below(nkeys);
+                    opening.push(gen_dispatch_with(&mut next_id, k, "-", 0));
+                }
+                opening.push(format!("settings {}:{} -", rng.pick(&["oldest", "oldest", "newest"]), rng.pick(&[0u64, 1, 2])));
+                for _ in 0..rng.range(1, 3) {
+                    let k = rng.below(nkeys);
+                    opening.push(gen_dispatch_with(&mut next_id, k, "-", 0));
+                }
+            }
+            let first_disc = cfg.disc.clone();
+            for op in opening {
+                // a deep backlog needs room: lift the limit first
+                if profile == 8 && first_disc != "none" && op.starts_with("dispatch 1 ") {
+                    let r = h.exec("settings none -").await;
+                    out.lock().unwrap().push(r);
+                }
+                st.lock().unwrap().bump(&format!("op_{}", op.split(' ').next().unwrap()));
+                let r = h.exec(&op).await;
+                out.lock().unwrap().push(r);
+            }
             for i in 0..nops {
                 let running: Vec<u64> = sh.lock().unwrap().running.keys().copied().collect();
                 let live = h.live.clone();
@@ -650,7 +709,15 @@ where
                             }
                             format!("settings {d} {n}")
                         }
-                        86..=92 => format!("advance {}", rng.pick(&[1u64, 2, 3, 10, 48, 49, 50, 97, 100, 150, 250])),
+                        86..=91 => format!("advance {}", rng.pick(&[1u64, 2, 3, 10, 48, 49, 50, 97, 100, 150, 250])),
+                        92 => {
+                            if rng.chance(1, 6) {
+                                "sethandler none".to_string()
+                            } else {
+                                next_hid += 1;
+                                format!("sethandler {}", next_hid - 1)
+                            }
+                        }
                         93..=94 if i > nops / 2 && !drained => {
                             drained = true;
                             "drain".to_string()
@@ -691,6 +758,12 @@ fn gen_dispatch(rng: &mut Rng, next_id: &mut u64, nkeys: u64) -> String {
     let key = rng.below(nkeys);
     let ttl = if rng.chance(1, 5) { rng.pick(&[0u64, 1, 3, 5, 50, 120, 300]).to_string() } else { "-".to_string() };
     let acc = rng.chance(1, 3) as u8;
+    format!("dispatch {id} {key} {} {ttl} {acc}", default_hash(key))
+}
+
+fn gen_dispatch_with(next_id: &mut u64, key: u64, ttl: &str, acc: u8) -> String {
+    let id = *next_id;
+    *next_id += 1;
     format!("dispatch {id} {key} {} {ttl} {acc}", default_hash(key))
 }
 
